@@ -42,6 +42,10 @@ fn main() {
                 only = args[i + 1].parse().ok();
                 i += 1;
             }
+            "--mem" => {
+                rx::set_mem_exact(args[i + 1] == "exact");
+                i += 1;
+            }
             "--scn" => {
                 scn = Some(args[i + 1].clone());
                 i += 1;
